@@ -21,10 +21,15 @@ type Cfg struct {
 	VK     *ValKind
 	Cache  string // none | big | tiny
 	Codec  string // json | registered
+	Cmp    string // "" = library default order | scaled = an explicit KeyCompare returning the default order times 3
 }
 
 func (c Cfg) String() string {
-	return fmt.Sprintf("bf=%d fmt=%s key=%s val=%s cache=%s codec=%s", c.BF, c.Format, c.KK.Name, c.VK.Name, c.Cache, c.Codec)
+	s := fmt.Sprintf("bf=%d fmt=%s key=%s val=%s cache=%s codec=%s", c.BF, c.Format, c.KK.Name, c.VK.Name, c.Cache, c.Codec)
+	if c.Cmp != "" {
+		s += " cmp=" + c.Cmp
+	}
+	return s
 }
 
 // Env is a store + cache + codec in which trees of one configuration live.
@@ -42,6 +47,13 @@ func NewEnv(c Cfg) *Env {
 	e := &Env{Cfg: c, Store: doubles.NewStore(), Ctx: context.Background()}
 	e.Persist = e.Store
 	e.Cache = MakeCache(c.Cache)
+	if c.Cmp == "scaled" {
+		inner := mast.DefaultKeyCompare(json.Marshal)
+		e.Compare = func(a, b interface{}) (int, error) {
+			x, err := inner(a, b)
+			return 3 * x, err
+		}
+	}
 	return e
 }
 
